@@ -52,7 +52,13 @@ LOSS_AND_GRAD = dict(params=dict(weights='obj:'), requires=[], pure=PURE,
                      sites=LG_SITES, uses_locals=['loss', 'dweights', 'dL', 'est', 'cl', 'mu'], numeric_objects=True,
                      ensures={'loss-returned-as-computed': 'same(result[0], loss)', 'gradient-returned-as-accumulated': 'same(result[1], dweights)'})
 
-ITEMS = [(REL, 'PublicInference.estimate', ESTIMATE), (REL, 'PublicInference.estimate.loss_and_grad', LOSS_AND_GRAD)]
+# the constructor: the public data and metric as given; the descent's first starting point is one unit of weight per public record
+INIT = dict(params=dict(self='obj:PublicInference', public_data='obj:Dataset', metric='obj:'), requires=[], pure={'np.ones': 'obj'},
+            sites=[dict(func='np.ones', arg=0, name='one-weight-per-public-record', spec='same(__arg, public_data.records)')],
+            ensures={'public-data-and-metric-as-given': 'same(self.public_data, public_data) and same(self.metric, metric)',
+                     'uniform-starting-weights': 'same(self.weights, np.ones(public_data.records))'})
+
+ITEMS = [(REL, 'PublicInference.__init__', INIT), (REL, 'PublicInference.estimate', ESTIMATE), (REL, 'PublicInference.estimate.loss_and_grad', LOSS_AND_GRAD)]
 
 
 class _DescentResult:
